@@ -13,6 +13,7 @@ from __future__ import annotations
 
 import core
 import designlib
+import searchlib
 
 PROPERTY = "C01"
 LEVEL = "proof"
@@ -35,6 +36,7 @@ def run(ctx: core.Ctx):
         "oracle (a): fresh GHE built with the implementation's own simulation code (its correctness is C09-C11)",
     ]
     ctx.lean_prepare()
+    synthetic_streams(ctx)
     cfgs, recs, cached = designlib.get_runs(ctx)
     ctx.extra["runs_from_cache"] = cached
     rps = [designlib.replay_line(r) for r in recs]
@@ -104,3 +106,89 @@ def run(ctx: core.Ctx):
     }
     if ctx.tier == "thorough":
         ctx.leanchecker(["GHEVerif.Props.C01", "GHEVerif.Lemmas.Search", "GHEVerif.Lemmas.SearchNested", "GHEVerif.Lemmas.SearchRowWise"])
+
+
+def _real_nested(c):
+    kind, a = c
+    if kind == "b1d":
+        return searchlib.real_b1d(*a)[:2]
+    return searchlib.real_b2d(*a) if kind == "b2d" else searchlib.real_bzd(*a)
+
+
+def _real_rw(c):
+    start, stop, step, cont, mi, e1, seedspec, esub, per = c
+    out, tr, table = searchlib.real_rw(start, stop, step, cont, mi, e1, searchlib.rw_oracle(*seedspec), esub, perimeter=per)
+    return out, tr, searchlib.model_line_rw(start, stop, step, cont, mi, e1, table, esub), {core.rs(k): v for k, v in table.items()}
+
+
+def synthetic_streams(ctx):
+    """The real search classes on synthetic excess tables: is what they select feasible?  (Decided from the
+    table, not from the model.)  Also compared with the model."""
+    import c05
+
+    rng = ctx.rng
+    quick = ctx.tier == "quick"
+    vals = [-2.0, -1.0, 1.0, 2.0, 0.5, -0.5]
+    cases = []
+    for _ in range(1500 if quick else 15000):
+        n = rng.randint(1, 14)
+        counts = sorted(rng.sample(range(1, 80), n))
+        ehi = [rng.choice(vals) + 0.001 * i for i in range(n)]
+        elo = [rng.choice(vals) + 0.001 * i for i in range(n)]
+        cases.append(("b1d", (counts, elo, ehi, rng.choice([None, None, 5, 30]), rng.random() < 0.3, 15)))
+    cases += searchlib.nested_cases(rng, 500 if quick else 5000)
+    real = core.pool_map(_real_nested, cases, chunksize=64)
+    model = ctx.driver([c05._model_line(c) for c in cases])
+    for idx, (c, r) in enumerate(zip(cases, real)):
+        kind, a = c
+        out_r, tr_r = r
+        ctx.case(("syn", kind, repr(a)), out_r.startswith("selected"))
+        if model is not None:
+            mo, path, mt = searchlib.split_model(model[idx])
+            if mo != out_r or mt != tr_r:
+                ctx.disagreements_checked += 1
+                if "search-model-correspondence" not in ctx.broken:
+                    ctx.broken.append("search-model-correspondence")
+                    ctx.extra["first_disagreement"] = {"case": c, "real": r, "model": model[idx]}
+        if not out_r.startswith("selected"):
+            continue
+        ctx.count("synthetic:" + kind + ":selected")
+        if kind == "b1d":
+            counts, elo, ehi, cap, cont, mi = a
+            _, k, hl = out_r.split()
+            k = int(k)
+            ok = (hl == "H" and ehi[k] < 0) or (k == 0 and hl == "H" and elo[0] * ehi[0] < 0) or cont
+            if not ok:
+                ctx.finding("b1d-infeasible-selection", f"Bisection1D returned field {k} at {hl} with excess {ehi[k] if hl == 'H' else elo[k]} without the continue flag",
+                            {"counts": counts, "elo": elo, "ehi": ehi, "cap": cap, "cont": cont, "real": out_r, "trace": tr_r})
+        else:
+            searchlib.check_nested_predicate(ctx, kind, a, out_r, tr_r)
+    rwc = []
+    for _ in range(500 if quick else 5000):
+        start, stop, step, cont, mi, e1, seedspec, esub = searchlib.rw_case_spec(rng)
+        rwc.append((start, stop, step, cont, mi, e1, seedspec, esub, None if rng.random() < 0.5 else 0.8))
+    rres = core.pool_map(_real_rw, rwc, chunksize=32)
+    mres = ctx.driver([r[2] for r in rres])
+    for c, r, m in zip(rwc, rres, mres or []):
+        out_r, tr_r, _, table = r
+        start, stop, step, cont, mi, e1, seedspec, esub, per = c
+        ctx.case(("syn-rw", repr(c[:6]), repr(seedspec)), out_r.startswith("selected"))
+        mo, _, mt = m.partition(" | ")
+        if mo.strip() != out_r or mt.strip() != tr_r:
+            ctx.disagreements_checked += 1
+            if "rowwise-search-correspondence" not in ctx.broken:
+                ctx.broken.append("rowwise-search-correspondence")
+                ctx.extra["first_rw_disagreement"] = {"cfg": c[:6], "real": [out_r, tr_r], "model": m}
+        if not out_r.startswith("selected") or out_r.endswith("escape"):
+            continue
+        ctx.count("synthetic:rw:selected")
+        what = out_r.split()[1]
+        if what == "single":
+            e = e1
+        elif what.startswith("sub"):
+            e = esub[int(what[3:]) - 1]
+        else:
+            e = table[what[1:]][1]
+        if e > 0:
+            ctx.finding("rowwise-infeasible-selection", f"RowWise search returned {what} whose excess at max height is {e} (> 0) without being the continue fallback",
+                        {"cfg": c, "real": out_r, "trace": tr_r})
